@@ -127,6 +127,7 @@ LAYERS = [
     ("Hooks", "C10_tv", "C10", [
         ("two hook runs of one call exchanged", swap_hook_ends, "C10_"),
         ("a second hook started before the first ended", lambda ls: (lambda i: None if i is None else ls[:i + 1] + [copy.deepcopy(ls[i])] + ls[i + 1:])(first(ls, lambda e: e["e"] == "Start")), "C10_OneAtATime"),
+        ("the clean call of a validated challenge dropped (with its hook runs)", lambda ls: (lambda i: None if i is None else ls[:i] + ls[(first(ls, lambda x: x["e"] in ("Call", "EndRun", "Write"), i + 1) or len(ls)):])(first(ls, lambda e: e["e"] == "Call" and e["type"].endswith("-clean"))), "C10_CleanAfterValidation"),
         ("a documented variable arrived with another value", edit(lambda e: e["e"] == "End" and e["role"] == "chal", setk(["obs", "vars", "identifier"], "other.example.org")), "C10_Vars"),
     ]),
     ("Template", "C10_tpl_tv", "C10", [
